@@ -5,11 +5,23 @@ ROOT = os.path.dirname(os.path.dirname(os.path.abspath(__file__)))
 
 def sensitivity(pattern=""):
     patches = sorted(p for p in glob.glob(os.path.join(ROOT, "mutants", "*.patch")) if pattern in os.path.basename(p))
+    # independently seeded changes: seeded/<id>/patch.diff, expected to be caught by meta.json's "caught_by"
+    seeded = {}
+    for meta in sorted(glob.glob(os.path.join(ROOT, "seeded", "*", "meta.json"))):
+        d = json.load(open(meta))
+        if d["caught_by"] and (pattern in "seeded" or pattern in d["id"]):
+            pth = os.path.join(os.path.dirname(meta), "patch.diff")
+            seeded[pth] = d
+            patches.append(pth)
     results = []
     for patch in patches:
-        name = os.path.basename(patch)[:-6]
-        props = re.match(r"((?:C\d+_?)+)-", name)
-        pids = props.group(1).strip("_").split("_") if props else []
+        if patch in seeded:
+            name = "seeded-" + seeded[patch]["id"]
+            pids = seeded[patch]["caught_by"][:1]
+        else:
+            name = os.path.basename(patch)[:-6]
+            props = re.match(r"((?:C\d+_?)+)-", name)
+            pids = props.group(1).strip("_").split("_") if props else []
         scratch = tempfile.mkdtemp(prefix="verif_mut_", dir="/tmp")
         try:
             shutil.copytree("/repo/transactron", os.path.join(scratch, "transactron"))
